@@ -43,7 +43,7 @@ class Part(AtomicPart):
 class MonitorOnlyPart:
     """scenarios explored under the controlled scheduler with the harness' own monitors, no model"""
 
-    def __init__(self, name, scn_cpp, lib_sources, scenarios, quick=dict(preemptions=2, max_execs=3000),
+    def __init__(self, name, scn_cpp, lib_sources, scenarios, quick=dict(preemptions=2, max_execs=1500),
                  thorough=dict(preemptions=3, max_execs=60000)):
         self.name, self.scn_cpp, self.lib_sources, self.scenarios = name, scn_cpp, lib_sources, scenarios
         self.quick, self.thorough = quick, thorough
@@ -59,7 +59,7 @@ class MonitorOnlyPart:
         p = self.quick if tier == "quick" else self.thorough
         for scn in self.scenarios:
             runs = [vlib.run_rt(exe, scn, "dfs", p["preemptions"], p["max_execs"], seed),
-                    vlib.run_rt(exe, scn, "pct", 3, 300 if tier == "quick" else 5000, seed + 7)]
+                    vlib.run_rt(exe, scn, "pct", 3, 150 if tier == "quick" else 5000, seed + 7)]
             seen = set()
             for r in runs:
                 st = r["stats"]
@@ -77,9 +77,11 @@ class MonitorOnlyPart:
 
 def run(tier, seed, replay=None):
     parts = [
-        Part("spawn_future", "scn_c09.cpp", LIB, "spawnfuture", SCENARIOS_V2),
-        Part("spawn_future_v1", "scn_c09.cpp", LIB, "spawnfuture", SCENARIOS_V1),
-        Part("spawn_detached", "scn_c09.cpp", LIB, "spawnfuture", SCENARIOS_DETACHED),
+        # quick-tier DFS (2 preemptions) is exhaustive for every modelled scenario; the random / PCT walks
+        # add schedules with more preemptions
+        Part("spawn_future", "scn_c09.cpp", LIB, "spawnfuture", SCENARIOS_V2, random_execs=(50, 5000)),
+        Part("spawn_future_v1", "scn_c09.cpp", LIB, "spawnfuture", SCENARIOS_V1, random_execs=(50, 5000)),
+        Part("spawn_detached", "scn_c09.cpp", LIB, "spawnfuture", SCENARIOS_DETACHED, random_execs=(10, 200)),
         MonitorOnlyPart("spawn_future_v1_cancel", "scn_c09.cpp", LIB, SCENARIOS_V1_MONITORS_ONLY),
     ]
     return run_check(
